@@ -161,7 +161,7 @@ pub fn view(key: &str, text: &str) -> Value {
     let mut links = vec![];
     let mut shape = vec![];
     walk(&d.blocks, &dir, 0, &mut words, &mut links, &mut shape);
-    json!({"key": ks, "words": words, "links": links, "shape": shape})
+    json!({"key": ks, "words": words, "links": links, "shape": shape, "meta": d.meta})
 }
 
 struct Served {
